@@ -350,6 +350,44 @@ def shadow_job():
             "family": "outer-class-named-like-module", "meta": {}}
 
 
+REDEF_V1 = """
+import dataclasses, typing
+class Leaf:
+    def __init__(self, weight: 'int'):
+        self.weight = weight
+class Tree:
+    def __init__(self, leaf: 'Leaf', kids: 'typing.List[Tree]'):
+        self.leaf, self.kids = leaf, kids
+class Order:
+    def __init__(self, name: 'str', customer: 'Customer', lines: 'typing.Tuple[str, ...]' = ()):
+        self.name, self.customer, self.lines = name, customer, lines
+"""
+REDEF_V2 = """
+import dataclasses, typing
+class Leaf:
+    def __init__(self, label: 'str', ratio: 'float'):
+        self.label, self.ratio = label, ratio
+class Tree:
+    def __init__(self, leaf: 'Leaf', kids: 'typing.List[Tree]'):
+        self.leaf, self.kids = leaf, kids
+@dataclasses.dataclass
+class Customer:
+    name: str
+class Order:
+    def __init__(self, name: 'str', customer: 'Customer', lines: 'typing.Tuple[str, ...]' = ()):
+        self.name, self.customer, self.lines = name, customer, lines
+"""
+
+
+def redefinition_job():
+    """Classes annotated on __init__ with strings, walked once, then DEFINED AGAIN under the same names in the same module name (a
+    reload, a notebook cell run twice) -- and a member that did not exist at the first walk: the graph of the new classes is made of
+    the new classes (a reference is a name, what it names is looked up at each walk)."""
+    return {"prog": {"src": REDEF_V2, "module": "vm_c09_redef", "pre_src": REDEF_V1, "pre_roots": ["Tree", "typing.Dict[str, Order]", "Order"]},
+            "roots": [{"ty": ["expr", e], "kind": "redefined"} for e in ("Tree", "Order", "typing.List[Tree]", "typing.Dict[str, Order]")],
+            "family": "redefined-classes", "meta": {}}
+
+
 def build_jobs(ctx):
     rng = ctx.rng
     jobs = []
@@ -407,6 +445,7 @@ def build_jobs(ctx):
     jobs.append(generic_job())
     jobs.append(fwdarg_job())
     jobs.append(shadow_job())
+    jobs.append(redefinition_job())
     return jobs
 
 
@@ -777,6 +816,17 @@ def run_prog(job):
             # a program given as Python source (constructs the class-spec encoding has no term for: user generics, ...)
             import sys
             import types
+            if job["prog"].get("pre_src"):
+                # an earlier generation of the same module: walked once (errors of that walk are not judged), then replaced
+                from typelib import graph as _g
+                mod0 = types.ModuleType(job["prog"]["module"])
+                sys.modules[job["prog"]["module"]] = mod0
+                exec(compile(job["prog"]["pre_src"], job["prog"]["module"] + ".py", "exec"), mod0.__dict__)
+                for e in job["prog"].get("pre_roots", []):
+                    try:
+                        list(_g.static_order(eval(e, mod0.__dict__)))
+                    except Exception:  # noqa: BLE001
+                        pass
             mod = types.ModuleType(job["prog"]["module"])
             sys.modules[job["prog"]["module"]] = mod
             exec(compile(job["prog"]["src"], job["prog"]["module"] + ".py", "exec"), mod.__dict__)
